@@ -626,18 +626,6 @@ pub proof fn lemma_line_map_len(cs: Seq<char>)
     // every character encodes to at least one byte
     lemma_chars_le_bytes(cs, cs.len() as int);
 }
-pub proof fn lemma_chars_le_bytes(cs: Seq<char>, n: int)
-    requires 0 <= n <= cs.len(),
-    ensures n <= char_byte_pos(cs, n),
-    decreases n,
-{
-    if n > 0 {
-        lemma_chars_le_bytes(cs, n - 1);
-        lemma_char_pos_mono(cs, n - 1, n);
-    } else {
-        lemma_char_pos_mono(cs, 0, 0);
-    }
-}
 
 //@fn id=list file=chiritori.rs name=list props=C01,C15
 //@ret out
